@@ -157,6 +157,10 @@ class Check:
                 file=out)
         code = 0
         replay_paths = []
+        if write and self.only is None and os.path.isdir(REPLAY_DIR):
+            for name in os.listdir(REPLAY_DIR):
+                if name.startswith(self.prop_id + '-'):
+                    os.remove(os.path.join(REPLAY_DIR, name))
         if self.errors:
             for text in self.errors:
                 print('ANALYSIS-ERROR property=%s %s' % (self.prop_id, text), file=out)
